@@ -6,5 +6,20 @@ package cerrors
 
 //verif:func FatalError(err) (r)
 //verif:ensures[nil] err == nil ==> r == nil
-//verif:ensures[fatal] err != nil ==> r != nil && is_fatal(r)
+//verif:ensures[fatal] err != nil ==> r != nil && err_has(r, typeid("*cerrors.fatalError"))
+//verif:ensures[fatal-predicate] err != nil ==> is_fatal(r)
+//verif:ensures[idempotent] err_has(err, typeid("*cerrors.fatalError")) ==> r == err
+//verif:ensures[wraps-cause] err != nil && !err_has(err, typeid("*cerrors.fatalError")) ==> typeis(r, "*cerrors.fatalError") && asptr(r, "*cerrors.fatalError").Err == err
+//verif:assume forall x :: is_fatal(x) == err_has(x, typeid("*cerrors.fatalError")) because "definition of the is_fatal vocabulary used by other packages' contracts"
+//verif:hint unfold_err_has(r, typeid("*cerrors.fatalError"))
+//verif:modifies nothing
+
+//verif:func IsFatalError(err) (r)
+//verif:ensures[classification] r == err_has(err, typeid("*cerrors.fatalError"))
+//verif:ensures[fatal-predicate] r == is_fatal(err)
+//verif:assume is_fatal(err) == err_has(err, typeid("*cerrors.fatalError")) because "definition of the is_fatal vocabulary used by other packages' contracts"
+//verif:modifies nothing
+
+//verif:func (*fatalError).Unwrap(f) (r)
+//verif:ensures[child-is-field] r == f.Err
 //verif:modifies nothing
